@@ -10,7 +10,7 @@ CLAIM = {
           "stream at all, both give the same segments (C16_lengths). Decided per run, not yet by theorem: whenever the full decoder "
           "(checksum ignored) accepts, the raw decoder accepts and both agree on the number of sequences and the ordered series of definitions and data messages (kind, local "
           "number, header byte, definition contents, architecture).",
-  "note": NOTE_COMMON + " io.ReadFull over a contiguous reader is modelled (next k bytes / EOF / ErrUnexpectedEOF). Bounds of the 130051-byte array follow from bytes < 256 (not proved here)."}
+  "note": NOTE_COMMON + " io.ReadFull over a contiguous reader is modelled (next k bytes / EOF / ErrUnexpectedEOF). That every slice of the 130051-byte array is in bounds is proved in Props/C03.v (C03_raw_slices_fit, C03_raw_array_suffices)."}
 
 
 def run(ctx):
